@@ -259,6 +259,7 @@ class Fn2(c2lean.Fn):
         self.nloops = 0
         self.rmw = []              # write buffers that are also read: extra `buf0` parameter
         self.elem_width = {}       # parameter buffer -> element width of every access so far
+        self.local_structs = set() # names of local struct variables
         self.given = []            # struct out-params tested with `if (meta)`
         self.struct_outs = {}      # struct pointer name -> [field,…] in order of first appearance
         self.local_arrays = []     # "@arr:<name>" keys of local arrays
@@ -448,6 +449,8 @@ class Fn2(c2lean.Fn):
             return self.read_at(env, buf, self.padd(off, self.offset_of(idx)), ty)
         if k == "UnaryOperator" and n["opcode"] == "&":
             t = skip_parens(inner[0])
+            if t["kind"] == "DeclRefExpr" and t["referencedDecl"]["name"] in self.local_structs:
+                return V("@struct:" + t["referencedDecl"]["name"], Ty("ptr", 64, Ty("other")))
             if t["kind"] == "ArraySubscriptExpr":
                 base, idx = self.expr(t["inner"][0], env), self.expr(t["inner"][1], env)
                 if base.ptr is None:
@@ -533,7 +536,17 @@ class Fn2(c2lean.Fn):
                 key = f"{sn}.{fld}"
                 if key in env.outs:                      # a field this function stored earlier
                     return V(env.outs[key], ty)
+            if base["kind"] == "DeclRefExpr" and not n.get("isArrow") and \
+                    base["referencedDecl"]["name"] in self.local_structs:
+                key = f"{base['referencedDecl']['name']}.{n['name']}"
+                if key not in env.vars:
+                    raise Unsupported(f"read of {key} before it is given a value")
+                return V(env.vars[key].s, ty)
             return super().expr(n, env)
+        if k == "UnaryOperator" and n["opcode"] == "&":
+            t0 = skip_parens(inner[0])
+            if t0["kind"] == "DeclRefExpr" and t0["referencedDecl"]["name"] in self.local_structs:
+                return V("@struct:" + t0["referencedDecl"]["name"], Ty("ptr", 64, Ty("other")))
         if k == "CallExpr":
             return self.call_expr(n, env)
         if k in ("ImplicitCastExpr", "CStyleCastExpr") and n.get("castKind") == "NullToPointer":
@@ -562,7 +575,7 @@ class Fn2(c2lean.Fn):
         callee = self.tr.done.get(cn)
         if callee is None:
             raise Unsupported(f"call to {cn}, which is not translated")
-        texts, outs, wshift, struct_pass = [], [], [], []
+        texts, outs, wshift, struct_pass, local_struct_pass = [], [], [], [], []
         if getattr(callee, "uses_fuel", False):
             texts.append("fuel")
         for a, prm in zip(args, callee.params):
@@ -596,6 +609,17 @@ class Fn2(c2lean.Fn):
                         self.rmw.append(buf)
                     texts.append(f"(fun i => rdw {buf}0 {self.wexpr(env, buf)} ({off} + i))")
                 wshift.append(a.ptr)
+            elif nm in callee.struct_fields and a.s.startswith("@struct:"):
+                # `&local_struct`: the callee reads the fields given so far and fills the ones it stores
+                sname = a.s[8:]
+                for fld, fty in callee.struct_fields[nm]:
+                    key = f"{sname}.{fld}"
+                    if key not in env.vars:
+                        raise Unsupported(f"{cn} reads {key}, which has no value yet")
+                    texts.append(self.conv(env.vars[key], fty).s)
+                if nm in getattr(callee, "given", []):
+                    texts.append("true")
+                local_struct_pass.append((nm, sname))
             elif nm in callee.struct_fields:
                 # this function's own struct out-parameter handed on to the callee's struct out-parameter
                 if a.s and a.s in self.struct_fields and callee.struct_fields[nm] and \
@@ -653,6 +677,17 @@ class Fn2(c2lean.Fn):
             else:
                 env.prelets.append(f"let {nm2} := (({proj(base + j)}).getD {cur.s})")
             env.vars[local] = V(nm2, cur.ty)
+        for cnm, sname in local_struct_pass:
+            keys = callee.out_keys()
+            for fld in getattr(callee, "struct_outs", {}).get(cnm, []):
+                idx = keys.index(f"{cnm}.{fld}")
+                key = f"{sname}.{fld}"
+                prev = env.vars.get(key)
+                nm2 = env.fresh(f"{sname}_{fld}", "Nat")
+                # `none` = the callee did not store the field on this path: it keeps its value (a field that had none
+                # reads as 0 here; reading it would be an uninitialised read in the C)
+                env.prelets.append(f"let {nm2} := (({proj(base + idx)}).getD {prev.s if prev is not None else '0'})")
+                env.vars[key] = V(nm2, Ty("u", 64))
         for cnm, own in struct_pass:
             keys = callee.out_keys()
             for fld in callee.struct_outs.get(cnm, []):
@@ -842,6 +877,12 @@ class Fn2(c2lean.Fn):
                     env.writes[key] = W()
                     if key not in self.local_arrays:
                         self.local_arrays.append(key)
+                    continue
+                if ty.kind == "other" and not init and not marr and "*" not in d["type"].get("qualType", "") \
+                        and "[" not in d["type"].get("qualType", ""):
+                    # a local struct (`T meta;`): its fields are locals named `meta.field`, filled by a callee that is
+                    # handed `&meta` or by `meta.field = e`; a field read before it was given a value is rejected
+                    self.local_structs.add(d["name"])
                     continue
                 if ty.kind not in "ui":
                     raise Unsupported(f"local of type {d['type']['qualType']}")
@@ -1830,6 +1871,18 @@ TARGETS2 = {
         ("import", "CSizes", "varintFOR.c:varintFORSize:forSize:legacy"),
         ("varintFOR.c", "varintFORComputeWidth", "forComputeWidth"),
         ("varintFOR.c", "varintFORAnalyze", "forAnalyze"),
+    ],
+    "CFORDec": [
+        ("import", "CTagged", TAGGED_IMPORTS),
+        ("import", "CTaggedAdd", "varintTagged.c:varintTaggedGet64:taggedGet64"),
+        ("import", "CExternal", "varintExternal.c:varintExternalLoadFromEncodingLittleEndian_:extLoadLE,"
+                                "varintExternal.c:varintExternalGet:extGet"),
+        ("varintFOR.c", "varintFORReadMetadata", "forReadMetadata"),
+        ("varintFOR.c", "varintFORGetMinValue", "forGetMinValue"),
+        ("varintFOR.c", "varintFORGetCount", "forGetCount"),
+        ("varintFOR.c", "varintFORGetOffsetWidth", "forGetOffsetWidth"),
+        ("varintFOR.c", "varintFORGetAt", "forGetAt"),
+        ("varintFOR.c", "varintFORDecode", "forDecode"),
     ],
     "CChainedW": [
         ("varintChained.c", "putVarint64", "chainedPut64"),
